@@ -154,7 +154,7 @@ func c04Gradient(r *run.Rng, ops []rec.Op) []rec.Op {
 		case corrupt == 2 && i == nstops/2:
 			col = ivg.RGBAColor(color.RGBA{0x80, 0x10, 0x10, 0x40})
 		case r.Chance(1, 8):
-			col = ivg.PaletteIndexColor(uint8(r.Intn(64)))
+			col = ivg.PaletteIndexColor(r.Byte())
 		case r.Chance(1, 12):
 			col = ivg.BlendColor(r.Byte(), r.Byte(), r.Byte())
 		}
